@@ -18,6 +18,10 @@ pub struct Case {
     pub move_macro: bool,
     /// finding features switched on
     pub features: Vec<String>,
+    /// layout of the source text (empty: one statement per line, canonical spacing); with it, comments - also ones
+    /// of several lines inside a statement -, blank lines and CRLF line ends
+    #[serde(default)]
+    pub trivia: Vec<u32>,
 }
 
 fn cfg(c: &Case) -> GenCfg {
@@ -134,8 +138,14 @@ fn parse_listing(text: &str, n: usize) -> Result<Vec<Row>, String> {
 
 pub fn prop(c: &Case, log: &mut CaseLog) -> Verdict {
     let b = build(&c.entropy, &cfg(c));
-    let (proj, rs) = b.prog.render();
-    let text = b.prog.text();
+    let (proj, rs) = if c.trivia.is_empty() {
+        b.prog.render()
+    } else {
+        let mut f = crate::gen::trivia::RandFiller::new(&c.trivia, crate::gen::trivia::TriviaCfg { multiline_block_comment: true, case_flips: false, ..crate::gen::trivia::TriviaCfg::clean() });
+        b.prog.render_with(&mut f)
+    };
+    log.label_if(!c.trivia.is_empty(), "free-layout");
+    let text = proj.main_text().to_string();
     let opts = AsmOptions { move_macro: c.move_macro, ..AsmOptions::default() };
     let a = match guarded(|| assemble(&proj, opts)) {
         Ok(a) => a,
@@ -350,15 +360,16 @@ pub fn prop(c: &Case, log: &mut CaseLog) -> Verdict {
 
 pub fn to_json(c: &Case) -> serde_json::Value {
     let b = build(&c.entropy, &cfg(c));
-    json!({"entropy": c.entropy, "bytes_per_line": c.bytes_per_line, "move_macro": c.move_macro, "features": c.features, "program": b.prog.text()})
+    json!({"entropy": c.entropy, "bytes_per_line": c.bytes_per_line, "move_macro": c.move_macro, "features": c.features, "trivia": c.trivia, "program": b.prog.text()})
 }
 
 pub fn strategy(features: Vec<String>) -> impl Strategy<Value = Case> {
-    (proptest::collection::vec(any::<u32>(), 8..300), 1usize..=16, any::<bool>()).prop_map(move |(entropy, bytes_per_line, move_macro)| Case { entropy, bytes_per_line, move_macro, features: features.clone() })
+    (proptest::collection::vec(any::<u32>(), 8..300), 1usize..=16, any::<bool>(), proptest::option::weighted(0.4, proptest::collection::vec(any::<u32>(), 4..60)))
+        .prop_map(move |(entropy, bytes_per_line, move_macro, trivia)| Case { entropy, bytes_per_line, move_macro, features: features.clone(), trivia: trivia.unwrap_or_default() })
 }
 
 pub fn run_check(ctx: &mut Ctx) {
-    ctx.rule = "generator programs that assemble (multi-segment, loops, macros invoked several times, nested scopes, data/text/align) x listing bytes-per-line 1..16 x macro attribution mode; oracle: reference layout walk gives (statement, value) -> target address range; source-map ranges must equal the model's, every entry's span must lie inside the emitting statement (or the outermost invocation in listing mode), address lookup must return that entry, and the listing text parsed back must show every line once in order with rows whose bytes are the image bytes at the row address, per-line bytes in emission order and every emitted byte exactly once. non-trivial = program with a loop, macro call or several segments".into();
+    ctx.rule = "generator programs that assemble (multi-segment, loops, macros invoked several times, nested scopes, data/text/align) x listing bytes-per-line 1..16 x macro attribution mode x layout (40%: comments - also of several lines inside a statement -, blank lines, CRLF); oracle: reference layout walk gives (statement, value) -> target address range; source-map ranges must equal the model's, every entry's span must lie inside the emitting statement (or the outermost invocation in listing mode), address lookup must return that entry, and the listing text parsed back must show every line once in order with rows whose bytes are the image bytes at the row address, per-line bytes in emission order and every emitted byte exactly once. non-trivial = program with a loop, macro call or several segments".into();
     let n = ctx.tier.pick(30_000, 600_000);
     ctx.campaign_parallel("without-relocated-segments", n, 16, || strategy(vec![]), prop, to_json);
     let n2 = ctx.tier.pick(30_000, 600_000);
@@ -366,7 +377,7 @@ pub fn run_check(ctx: &mut Ctx) {
 }
 
 pub fn replay(ctx: &mut Ctx, case: &serde_json::Value) {
-    let c: Case = match serde_json::from_value(json!({"entropy": case["entropy"], "bytes_per_line": case["bytes_per_line"], "move_macro": case["move_macro"], "features": case["features"]})) {
+    let c: Case = match serde_json::from_value(json!({"entropy": case["entropy"], "bytes_per_line": case["bytes_per_line"], "move_macro": case["move_macro"], "features": case["features"], "trivia": case.get("trivia").cloned().unwrap_or(json!([]))})) {
         Ok(c) => c,
         Err(e) => {
             ctx.health(false, format!("replay case does not deserialize: {}", e));
